@@ -23,7 +23,10 @@ def gen_C02(rng, tier):
     n = 2500 if tier == 'quick' else 30000
     ex = (G.exhaustive_histories('U', 'int', 2, 3, True) + G.exhaustive_histories('U', 'none', 2, 4, False)) if tier != 'quick' else []
     big = [G.big_history(rng, 'U', rng.choice(['none', 'int', 'str'])) for _ in range(24 if tier == 'quick' else 80)]
-    return G.histories(rng, n, ['U'], kinds, maxops=30 if tier == 'quick' else 40, reject_p=0.0) + ex + big
+    # the undirected graph built FROM a directed one (the converting constructor lives in undirected_graph.hpp): every one-way and reciprocal pair, loops
+    conv = [G.cv_case(rng, 'D', rng.choice(['none', 'int', 'str'])) for _ in range(200 if tier == 'quick' else 2500)]
+    return G.histories(rng, n, ['U'], kinds, maxops=30 if tier == 'quick' else 40, reject_p=0.0) + ex + big + conv
+def seg_C02(case, k): return None if case.startswith('CV') else [0, 1, 2, 3, 6, 7, 8]
 
 def gen_C04(rng, tier):
     n = 2500 if tier == 'quick' else 30000
@@ -362,6 +365,7 @@ def gen_C17(rng, tier):
     out += [G.multi_history(rng, rng.choice(['DM', 'UM']), maxops=14, force_p=0.35, dd_p=0.05) for _ in range(150 * k)]
     out += [G.weighted_history(rng, rng.choice(['DW', 'UW']), maxops=14, force_p=0.35, dd_p=0.05) for _ in range(100 * k)]
     out += [G.big_history(rng, rng.choice(['D', 'U']), 'int') for _ in range(6 * k)] + [G.many_copies_history(rng, rng.choice(['D', 'U']), 'none') for _ in range(4 * k)]
+    out += GP.long_chain_cases(rng, 3 * k)
     return out
 CXX_MATRIX = [
     dict(tag='gxx_O0_debugstl', flags=['g++', '-std=c++14', '-O0', '-g', '-D_GLIBCXX_DEBUG', '-D_GLIBCXX_DEBUG_PEDANTIC']),
@@ -461,7 +465,7 @@ PROPS = {
                   'mutators; multigraph/weighted classes: forced insertions (copies of a pair carrying the same value, rarely not) then removeDuplicateEdges then ordinary use; '
                   'all observers after every call compared with the Coq model and with the multiset spec (which abstains while a multigraph/weighted pair is duplicated); '
                   'non-trivial = a forced insertion really created a duplicate entry'),
- 'C07': dict(harness=['classes', 'multi', 'paths'], route=route_all, gen=gen_C07, shrink=shrink_ops, coq_term=lambda c: coq_term_any(c) if c.split()[0] in ('D', 'U', 'DM', 'UM', 'DW', 'UW') else None, histogram=G.op_histogram, coq_imports=MW_IMPORTS,
+ 'C07': dict(harness=['classes', 'multi', 'paths'], route=route_all, gen=gen_C07, shrink=shrink_ops, driver_args=['codes'], coq_term=lambda c: coq_term_any(c) if c.split()[0] in ('D', 'U', 'DM', 'UM', 'DW', 'UW') else None, histogram=G.op_histogram, coq_imports=MW_IMPORTS,
              nontrivial=_has_reject, model_name='the six class models (Throw outcomes, checked accessors)',
              rule='seeded histories on all six graph classes interleaving valid calls with rejected ones: every mutator with an out-of-range vertex (size, size+1, UINT_MAX) in '
                   'either argument position, with and without force, resize to fewer vertices, setEdgeLabel on missing edges, and Q v = every observer taking a vertex asked about '
@@ -489,11 +493,12 @@ PROPS = {
              rule='seeded random histories on DirectedWeightedGraph / UndirectedWeightedGraph (force off) with exactly representable weights k/4 (negative, zero, positive); '
                   'addEdge, setEdgeWeight on present and absent edges in both orientations, every removal, resize; all observers incl. getTotalWeight and getWeightMatrix '
                   'compared after every call with the Coq model and the weight-function spec; plus histories with ARBITRARY double weights given as bit patterns (0.1-like decimals, 1e16-scale and subnormal values, random mantissas with exponents -70..70, both signs): getTotalWeight (long double, resp. its double rounding for the undirected class) after every call compared BIT FOR BIT with the Flocq model of the running total and checked against the proved accumulated-rounding-error bound of the exact sum; non-trivial = reaches a state with >=1 edge'),
- 'C02': dict(harness='classes', gen=gen_C02, coq_term=G.coq_term_history, histogram=G.op_histogram, coq_imports='Base DirectedModel DirectedSpec UndirectedModel UndirectedSpec Instances',
-             segments=[0, 1, 2, 3, 6, 7, 8], nontrivial=_steps_with_edges, model_name='UndirectedModel.ustep/u_observe',
+ 'C02': dict(harness='classes', gen=gen_C02, coq_term=lambda c: None if c.startswith('CV') else G.coq_term_history(c), histogram=G.op_histogram, coq_imports='Base DirectedModel DirectedSpec UndirectedModel UndirectedSpec Instances',
+             segments=seg_C02, nontrivial=lambda c, I: (';' in c) if c.startswith('CV') else _steps_with_edges(c, I), model_name='UndirectedModel.ustep/u_observe',
              rule='seeded random histories of LabeledUndirectedGraph<L> mutators (force off), each call naming its pair in a random orientation; sizes 0-5(+resize); '
                   'after every call ALL observers (hasEdge both orientations, neighbour lists, degrees in both conventions, both matrices, edges()) are compared with the Coq model '
-                  'and the unordered-pair spec; non-trivial = distinct history that reaches a state with >=1 edge'),
+                  'and the unordered-pair spec; plus undirected graphs built from directed ones by the converting constructor (all observers of the result, round trip); '
+                  'non-trivial = distinct history that reaches a state with >=1 edge'),
  'C01': dict(harness='classes', gen=gen_C01, coq_term=G.coq_term_history, histogram=G.op_histogram,
              segments=[0, 1, 2, 3, 6, 7, 8], nontrivial=_steps_with_edges, model_name='DirectedModel.step/observe',
              rule='seeded random histories of LabeledDirectedGraph<L> mutators (force off) incl. rejected calls; sizes 0-5(+resize); '
